@@ -580,7 +580,7 @@ def run(ctx):
 def _classify(ctx, st, obs_all, info_all, rep, plans_by_id, exp_by_id, names) -> None:
     for o in obs_all:
         pid = o["id"]
-        plan = plans_by_id[pid]
+        plan = plan_stored = plans_by_id[pid]
         info = info_all.get(pid)
         if o.get("mode"):
             plan = dict(plan, kinds=(info or {}).get("kinds") or ["loaded"] * len(o["c"]["sizes"]))
@@ -654,7 +654,7 @@ def _classify(ctx, st, obs_all, info_all, rep, plans_by_id, exp_by_id, names) ->
                 if d is None or rank < d["_rank"]:
                     cnt = d["cases"] if d else 0
                     st["viol"][sig] = d = {
-                        "_rank": rank, "cases": cnt, "plan": plan, "failed_formulas": r["bad"], "diff": r["diff"],
+                        "_rank": rank, "cases": cnt, "plan": plan_stored, "failed_formulas": r["bad"], "diff": r["diff"],
                         "observation": o, "info": info, "expected_layout": expL,
                         "message": _message(o, plan, info, r)}
                 d["cases"] += 1
